@@ -16,7 +16,7 @@ func isSel2(n ast.Node, x, name string) bool {
 
 // Facts of transient_data.go (+ the wiring in room.go / hub.go) for C14.
 func genTransient(c *ctx) *leanFile {
-	l := c.newLean("Transient", "transient_data.go", "room.go", "hub.go")
+	l := c.newLean("Transient", "transient_data.go", "room.go", "hub.go", "clientsession.go")
 	f := c.file("transient_data.go")
 	const recv = "TransientData"
 
@@ -597,5 +597,8 @@ func genTransient(c *ctx) *leanFile {
 		}
 	}
 	l.strList("wiring", wiring, rf != nil && hf != nil, "room.go / hub.go not readable")
+
+	// --- the embedding: who is registered as listener of a room's data, and when (transientembed.go)
+	genTransientEmbedding(c, l)
 	return l
 }
